@@ -429,6 +429,8 @@ pub fn run_schedule(prog: &Program, prefix: &[usize], opts: RunOpts) -> Executio
     run::reset_env();
     // (programs named "...-dtunknown-..." run on a filesystem whose listings report no entry type)
     shim::set_dtype_unknown(prog.name.contains("dtunknown"));
+    // (programs named "...-stagedfuture-...": values are staged in the cache's .kismet_temp, dated a day ahead)
+    ops::set_staged_source(if prog.name.contains("stagedfuture") { Some(86_400_000_000_000) } else { None });
     let sc = Scratch::new();
     let dirs = Dirs::under(&sc.root, prog.cfg.readers.len());
     plant_pre(prog, &dirs);
